@@ -11,7 +11,7 @@ use serde_json::json;
 pub struct C17;
 
 const LABELS: &[&str] = &[
-    "utf-8", "windows-1252", "windows-1250", "windows-1251", "iso-8859-2", "iso-8859-5", "iso-8859-7", "iso-8859-15", "ibm866", "koi8-r", "koi8-u", "shift_jis", "euc-jp", "gbk", "gb18030", "big5", "euc-kr", "windows-1253", "windows-1254", "windows-1255", "windows-1256", "windows-1257", "windows-1258", "windows-874", "macintosh",
+    "utf-8", "windows-1252", "windows-1250", "windows-1251", "iso-8859-2", "iso-8859-5", "iso-8859-7", "iso-8859-15", "ibm866", "koi8-r", "koi8-u", "shift_jis", "euc-jp", "gbk", "gb18030", "big5", "euc-kr", "windows-1253", "windows-1254", "windows-1255", "windows-1256", "windows-1257", "windows-1258", "windows-874", "macintosh", "iso-2022-jp", "utf-16le", "utf-16be", "x-mac-cyrillic", "iso-8859-8", "iso-8859-6",
 ];
 
 const UTF8_BOM: &[u8] = &[0xEF, 0xBB, 0xBF];
